@@ -97,9 +97,9 @@ def st_case():
     def build(draw):
         op = draw(st.sampled_from(['retrieve', 'merge', 'merge', 'merge3', 'embed', 'mask', 'forwards', 'forwards_partial', 'partial',
                                    'kwoargs', 'posoargs', 'autokwoargs', 'annotate', 'discovery', 'discovery_chain', 'discovery_twice',
-                                   'replace_mixed']))
+                                   'replace_mixed', 'wraps', 'wraps', 'retrieve_class', 'retrieve_instance']))
         nfun = {'merge': 2, 'merge3': 3, 'embed': 2, 'forwards': 2, 'forwards_partial': 2, 'discovery': 2, 'discovery_chain': 3,
-                'discovery_twice': 2}.get(op, 1)
+                'discovery_twice': 2, 'wraps': 2}.get(op, 1)
         if op in ('merge', 'merge3'):
             base = draw(fn(('a', 'b', 'c')))
             funcs = []
@@ -113,6 +113,9 @@ def st_case():
             for i in range(1, nfun):
                 last = i == nfun - 1
                 funcs.append(draw(fn(('x', 'y', 'z') if last else ('m', 'n'), need_stars=not last, max_named=3 if last else 1)))
+        elif op == 'wraps':
+            # f0 behind a functools.wraps wrapper written in (and compiled with the flags of) the second function's module
+            funcs = [draw(fn(('a', 'b', 'c'))), {'spec': [['args', VP, None, None], ['kwargs', VK, None, None]], 'ret': None}]
         else:
             funcs = [draw(fn(('a', 'b', 'c')))]
         envmode = draw(st.sampled_from(['shared', 'own-same', 'own-clash', 'own-alias']))
@@ -210,6 +213,29 @@ def run_op(case, fns):
         return sigtools.signature(d)
     if op in ('discovery', 'discovery_chain', 'discovery_twice'):
         return sigtools.signature(fns[0])
+    if op == 'wraps':
+        import __future__
+        env = fns[1].__globals__
+        flag = fns[1].__code__.co_flags & __future__.annotations.compiler_flag
+        src = 'def _mk(f):\n    @functools.wraps(f)\n    def _w(*args, **kwargs):\n        return f(*args, **kwargs)\n    return _w\n'
+        exec(compile(src, '<verif-c11-wraps>', 'exec', flag, dont_inherit=True), env)
+        w = env['_mk'](fns[0])
+        return sigtools.signature(w) if ex['pick'] % 2 else sig(w)
+    if op in ('retrieve_class', 'retrieve_instance'):
+        # the same def as __init__ of a class / __call__ of an instance (objects without code of their own)
+        import __future__
+        f = case['funcs'][0]
+        env = fns[0].__globals__
+        flag = fns[0].__code__.co_flags & __future__.annotations.compiler_flag
+        meth = '__init__' if op == 'retrieve_class' else '__call__'
+        spec = universe.spec_text(tuple(Par(*p) for p in f['spec']))
+        has_po = any(p[1] == PO for p in f['spec'])
+        head = 'self, /' if has_po and not spec else 'self, ' + spec if not has_po else 'self, ' + spec
+        ret = ' -> %s' % f['ret'] if f['ret'] and op == 'retrieve_instance' else ''
+        src = 'class _K(object):\n    def %s(%s)%s:\n        return None\n' % (meth, head.rstrip(', '), ret)
+        exec(compile(src, '<verif-c11-class>', 'exec', flag, dont_inherit=True), env)
+        target = env['_K'] if op == 'retrieve_class' else env['_K']()
+        return sigtools.signature(target) if ex['pick'] % 2 else sig(target)
     if op == 'replace_mixed':
         # a parameter list mixing the signature's own parameters with a plain inspect.Parameter (deprecated, accepted)
         import inspect
@@ -383,6 +409,8 @@ def check_case(case, stats):
                     definer.setdefault(p[0], (i, p[3]))
             got = annotations_of(P, evaluated=False)
             for name, v in got.items():
+                if name == 'return' and case['op'] == 'retrieve_class':
+                    continue        # written on __init__, not reported for the class
                 if name == 'return':
                     i, sp = 0, case['funcs'][0]['ret']
                 elif name in definer:
